@@ -34,7 +34,7 @@ func init() {
 			{Name: "cleanup without pause", File: "proxy/grpc_handler.go", Old: "\t\tp.lock.Unlock()\n\t\ttime.Sleep(p.cleanupInterval)", New: "\t\tp.lock.Unlock()", Expect: "C16.P3"},
 			{Name: "lookup host taken from authority instead of dsthost", File: "proxy/grpc_handler.go", Old: "\thosts := md[\"dsthost\"]", New: "\thosts := md[\":authority\"]", Expect: "C16.L1"},
 			{Name: "benign: chained interceptor", File: "main.go", Old: "grpc.StreamInterceptor(proxyInterceptor.Stream),", New: "grpc.ChainStreamInterceptor(proxyInterceptor.Stream),", Expect: ""},
-		}, append(c16moreMutants, c16round2Mutants...)...),
+		}, append(c16moreMutants, append(c16round2Mutants, c16round3Mutants...)...)...),
 	})
 }
 
@@ -251,6 +251,17 @@ func c16poolGetter(call *ssa.Call) bool {
 			}
 		}
 		return len(ms) > 0
+	}
+	if call.Call.StaticCallee() == nil {
+		// the getter as a function value (a method value in a local, a captured variable or a field of the director's
+		// state): every function it may denote
+		fs := c16funcsOf(call.Call.Value, 0)
+		for _, m := range fs {
+			if !c16poolGetterFn(m) {
+				return false
+			}
+		}
+		return len(fs) > 0
 	}
 	return c16poolGetterFn(call.Call.StaticCallee())
 }
